@@ -163,7 +163,7 @@ Print Assumptions C04_tx_volumes_refuted_one_asset_per_account.
 
 (* ---- non-vacuity: a history with two ledgers, a revert, metadata, that satisfies every exclusion hypothesis ------------------------ *)
 Definition ex_history : list log :=
-  [ mk_new 1 0 100 (mk_tx 0 100 0 [mk_p 0 1 5 100; mk_p 1 2 5 30]);
+  [ mk_new 1 0 100 (mk_tx 0 80 0 [mk_p 0 1 5 100; mk_p 1 2 5 30]);
     mk_new 2 0 101 (mk_tx 0 101 0 [mk_p 0 1 5 7]);
     {| l_ledger := 1; l_id := 1; l_date := 102; l_data := PSet (TAccount 1) [(3, 4)]%N |};
     mk_new 1 2 103 (mk_tx 1 90 0 [mk_p 1 0 5 10]);
@@ -173,7 +173,7 @@ Definition ex_history : list log :=
 Example C04_example :
   (exists d, run ex_history = Some d /\
      get_all_account_volumes d 1 1 None = [(5%N, (Some 130, Some 40))] /\
-     get_all_account_effective_volumes d 1 1 (Some 95) = [(5%N, (Some 0, Some 10))] /\
+     get_all_account_effective_volumes d 1 1 (Some 95) = [(5%N, (Some 100, Some 40))] /\
      get_account_balance d 1 1 5 None = Some 90 /\
      get_account d 1 1 = Some [(3, 4)]%N /\
      option_map v_reverted (get_transaction d 1 0) = Some true /\
